@@ -56,15 +56,26 @@ namespace {
         uint32_t chk;
         uint32_t magic;
         TItem() : seq( 0 ), chk( 0 ), magic( kMagic ) { ++live; }
-        explicit TItem( uint32_t s ) : seq( s ), chk( mix( s )), magic( kMagic ) { ++live; }
-        TItem( TItem const& o ) : seq( o.seq ), chk( o.chk ), magic( kMagic )
+        // copying is client code that runs inside the ring operation: make it a scheduling point
+        explicit TItem( uint32_t s ) : magic( kMagic )
         {
+            cdsverif::point();
+            seq = s;
+            chk = mix( s );
+            ++live;
+        }
+        TItem( TItem const& o ) : magic( kMagic )
+        {
+            cdsverif::point();
+            seq = o.seq;
+            chk = o.chk;
             if ( o.magic != kMagic )
                 ++bad;
             ++live;
         }
         TItem& operator=( TItem const& o )
         {
+            cdsverif::point();
             if ( o.magic != kMagic || magic != kMagic )
                 ++bad;
             seq = o.seq;
@@ -142,10 +153,16 @@ namespace {
                     ok = rb.emplace( first );
                     break;
                 case 3:
-                    ok = rb.enqueue_with( [first]( T& dest ) { new ( &dest ) T( first ); } );
+                    ok = rb.enqueue_with( [first]( T& dest ) {
+                        cdsverif::point();      // the copy functor is client code
+                        new ( &dest ) T( first );
+                    } );
                     break;
                 default:
-                    ok = rb.push_with( [first]( T& dest ) { new ( &dest ) T( first ); } );
+                    ok = rb.push_with( [first]( T& dest ) {
+                        cdsverif::point();
+                        new ( &dest ) T( first );
+                    } );
                     break;
                 }
             }
@@ -167,7 +184,10 @@ namespace {
                     ok = rb.push( seqs.data(), count );
                     break;
                 default:
-                    ok = rb.push( seqs.data(), count, []( T& dest, uint32_t const& src ) { new ( &dest ) T( src ); } );
+                    ok = rb.push( seqs.data(), count, []( T& dest, uint32_t const& src ) {
+                        cdsverif::point();
+                        new ( &dest ) T( src );
+                    } );
                     break;
                 }
             }
@@ -217,10 +237,16 @@ namespace {
                     ok = rb.dequeue( got[0] );
                     break;
                 case 2:
-                    ok = rb.dequeue_with( [&got]( T& src ) { got[0] = src; } );
+                    ok = rb.dequeue_with( [&got]( T& src ) {
+                        cdsverif::point();
+                        got[0] = src;
+                    } );
                     break;
                 default:
-                    ok = rb.pop_with( [&got]( T& src ) { got[0] = src; } );
+                    ok = rb.pop_with( [&got]( T& src ) {
+                        cdsverif::point();
+                        got[0] = src;
+                    } );
                     break;
                 }
             }
@@ -233,7 +259,10 @@ namespace {
                 }
                 else {
                     gseq.assign( count, 0 );
-                    ok = rb.pop( gseq.data(), count, []( uint32_t& dest, T& src ) { dest = src.good( src.seq ) ? src.seq : 0xffffffffu; } );
+                    ok = rb.pop( gseq.data(), count, []( uint32_t& dest, T& src ) {
+                        cdsverif::point();
+                        dest = src.good( src.seq ) ? src.seq : 0xffffffffu;
+                    } );
                 }
             }
             uint64_t p_ub = published + push_inflight;
